@@ -211,7 +211,7 @@ impl<'dbg> DqeExecutor<'dbg> {
         let debugee = &self.debugger.debugee;
         let (current_func, _) = debugee
             .debug_info(ecx.location().pc)?
-            .find_function_by_pc(ecx.location().global_pc)?
+            .find_function_by_pc(ecx.lookup_pc())?
             .ok_or(FunctionNotFound(ecx.location().global_pc))?;
 
         let vars = match selector {
@@ -220,7 +220,7 @@ impl<'dbg> DqeExecutor<'dbg> {
                 local_only: local,
             } => {
                 let local_variants = current_func
-                    .local_variable(ecx.location().global_pc, var_name)
+                    .local_variable(ecx.lookup_pc(), var_name)
                     .map(|v| vec![v])
                     .unwrap_or_default();
 
@@ -236,7 +236,7 @@ impl<'dbg> DqeExecutor<'dbg> {
                     local_variants
                 }
             }
-            Selector::Any => current_func.local_variables(ecx.location().global_pc),
+            Selector::Any => current_func.local_variables(ecx.lookup_pc()),
         };
 
         Ok(vars)
@@ -250,7 +250,7 @@ impl<'dbg> DqeExecutor<'dbg> {
         let debugee = &self.debugger.debugee;
         let (current_function, _) = debugee
             .debug_info(ecx_loc.pc)?
-            .find_function_by_pc(ecx_loc.global_pc)?
+            .find_function_by_pc(self.debugger.ecx().lookup_pc())?
             .ok_or(FunctionNotFound(ecx_loc.global_pc))?;
         let params = current_function.parameters();
         let params = match selector {
